@@ -148,7 +148,7 @@ def main(prop, tier="quick", only=None):
     # ---- violations: replay on the real code
     violations = []
     seen = set()
-    for o in failed:
+    for o in sorted(failed, key=lambda o: 0 if o["kind"] in PROOF_KINDS else 1):
         key = (o.get("func"), o["label"])
         if key in seen:
             continue
